@@ -12,7 +12,7 @@ def split_state(s):
     parts = {}
     for seg in s.split(" | "):
         seg = seg.strip()
-        m = re.match(r"(L|O|pending):(.*)", seg)
+        m = re.match(r"(L|O|pending|hpending):(.*)", seg)
         if m:
             parts[m.group(1)] = m.group(2).split()
         elif seg.startswith("Q1:"):
@@ -21,6 +21,12 @@ def split_state(s):
             kv = dict(x.split("=") for x in seg.split() if "=" in x)
             parts["ec"], parts["nc"], parts["emptyQueue"] = int(kv["ec"]), int(kv["nc"]), kv["emptyQueue"]
             parts["freebad"] = "FREE-SLOT-OCCUPIED" in seg
+        elif seg.startswith("HQ:"):
+            parts["HQ"] = seg
+        elif seg.startswith("hec="):
+            kv = dict(x.split("=") for x in seg.split() if "=" in x)
+            parts["hec"], parts["hempty"] = int(kv["hec"]), kv["hempty"]
+            parts["hfreebad"] = "HFREE-SLOT-OCCUPIED" in seg
         elif seg.startswith("HL="):
             parts["HL"] = seg
         elif seg.startswith("remItems="):
@@ -72,13 +78,21 @@ def check_section(header, lines):
             elif c["follow"] != follow_before:
                 viol.append((tag, "follow-up behaves differently after the fault: %s vs %s" % (c["follow"], follow_before)))
         else:
-            for k in ("L", "O", "Q", "HL", "rem"):
+            for k in ("L", "O", "Q", "HL", "HQ", "rem"):
                 if A.get(k) != B.get(k):
                     viol.append((tag, "an exception escaping an invocation/dispatch/processing call changed the listener lists: %s -> %s" % (B.get(k), A.get(k))))
             if A.get("ec") != 0:
                 viol.append((tag, "queueEmptyCounter not restored after the exception (ec=%s): emptiness reporting and waiting are wrong" % A.get("ec")))
-            if A.get("freebad"):
+            if A.get("hec", 0) != 0:
+                viol.append((tag, "queueEmptyCounter of the heterogeneous queue not restored after the exception (ec=%s)" % A.get("hec")))
+            if A.get("freebad") or A.get("hfreebad"):
                 viol.append((tag, "a recycled slot still holds an object"))
+            hpa, hpb = A.get("hpending", []), B.get("hpending", [])
+            it = iter(hpb)
+            if not all(any(x == y for y in it) for x in hpa):
+                viol.append((tag, "pending events of the heterogeneous queue after the exception are not a subsequence of those before: %s -> %s" % (hpb, hpa)))
+            if "hempty" in A and (A.get("hempty") == "1") != (len(hpa) == 0):
+                viol.append((tag, "heterogeneous emptyQueue() = %s with pending %s" % (A.get("hempty"), hpa)))
             pa, pb = A.get("pending", []), B.get("pending", [])
             # the events still pending must be a subsequence of the ones pending before, plus nothing new
             it = iter(pb)
@@ -86,8 +100,9 @@ def check_section(header, lines):
                 viol.append((tag, "pending events after the exception are not a subsequence of those before: %s -> %s" % (pb, pa)))
             if (A.get("emptyQueue") == "1") != (len(pa) == 0):
                 viol.append((tag, "emptyQueue() = %s with pending %s" % (A.get("emptyQueue"), pa)))
-            if c["dp"] != len(pa) - len(pb):
-                viol.append((tag, "payload objects leaked or over-released: live payloads %+d, pending events %+d" % (c["dp"], len(pa) - len(pb))))
+            dpend = (len(pa) - len(pb)) + (sum(1 for x in hpa if x.startswith("P")) - sum(1 for x in hpb if x.startswith("P")))
+            if c["dp"] != dpend:
+                viol.append((tag, "payload objects leaked or over-released: live payloads %+d, pending events %+d" % (c["dp"], dpend)))
             if c["dcb"] != 0:
                 viol.append((tag, "callback objects leaked or over-released: %+d" % c["dcb"]))
     return viol, len(out)
@@ -104,8 +119,8 @@ def fault_suite(ctx, search=False, only=None, nq=12, nt=150):
     if not ok:
         return
     rule0 = ctx.rule
-    ctx.rule = ("for %s generated states x 21 operations (callback-list add/insert/assign/copy/invoke, queue appendListener/enqueue/peekEvent/dispatch/process/processOne/processIf/copy, "
-                "ScopedRemover / CounterRemover / ConditionalRemover add, HeterCallbackList append/assign): the k-th allocation, callback copy, callback call, payload copy, payload move, predicate call, "
+    ctx.rule = ("for %s generated states x 31 operations (callback-list add/insert/assign/copy/invoke, queue appendListener/prependListener/enqueue/peekEvent/takeEvent/clearEvents/dispatch/process/processOne/processIf/processUntil/copy, "
+                "HeterEventQueue appendListener/enqueue/process/processOne/processIf with events of two prototypes, ScopedRemover / CounterRemover / ConditionalRemover add, HeterCallbackList append/assign): the k-th allocation, callback copy, callback call, payload copy, payload move, predicate call, "
                 "filter call throws, for EVERY k until the operation completes unfaulted (exhaustive in k per state and operation); distinct = distinct (state, operation, fault point); "
                 "non-trivial = the fault fired and the exception reached the caller") % (str(nq) if quick else str(nt))
     if only == "ledger":
